@@ -228,6 +228,35 @@ def expand_facts():
         return json.load(fh)
 
 
+def a2ml_text_facts():
+    """C19: for every reference invocation of a2ml_specification! (oracle/a2ml_invocations/*.rs): the macro input as a token
+    tree, the string constants and the items of the expansion produced by the in-tree generator"""
+    d = facts_dir()
+    inv = os.path.join(VERIF, "oracle", "a2ml_invocations")
+    hh = hashlib.sha256()
+    for fn in sorted(os.listdir(inv)):
+        hh.update(fn.encode() + open(os.path.join(inv, fn), "rb").read())
+    out = os.path.join(d, "a2mltext.%s.json" % hh.hexdigest()[:12])
+    if not os.path.exists(out):
+        with Lock("a2mltext"):
+            if not os.path.exists(out):
+                build_specscan()
+                res = {}
+                for fn in sorted(os.listdir(inv)):
+                    if not fn.endswith(".rs"):
+                        continue
+                    p = subprocess.run([SPECSCAN, "a2ml-text", os.path.join(inv, fn)], cwd=REPO, stdout=subprocess.PIPE, stderr=subprocess.PIPE, text=True)
+                    if p.returncode != 0:
+                        res[fn] = {"error": p.stderr[-1500:]}
+                    else:
+                        res[fn] = json.loads(p.stdout)
+                with open(out + ".tmp", "w") as fh:
+                    json.dump(res, fh)
+                os.replace(out + ".tmp", out)
+    with open(out) as fh:
+        return json.load(fh)
+
+
 # ---------------------------------------------------------------------------------------------
 # findings, reports, evidence
 
